@@ -17,9 +17,9 @@ CONSTANTS Mode, Tier, Part, Parts
 VARIABLES s, hist
 vars == <<s, hist>>
 
-Maker  == {"msg_cancel", "msg_coop", "msg_coop_bad", "pay_claim", "timeout", "notify", "rpc_resend", "rpc_swapout", "pol_set", "pol_reload", "pol_get"}
+Maker  == {"msg_cancel", "msg_coop", "msg_coop_bad", "pay_claim", "timeout", "notify", "rpc_resend", "rpc_swapout", "msg_req", "pol_set", "pol_reload", "pol_get"}
 Core   == {"msg_cancel", "msg_coop", "msg_coop_bad", "pay_claim", "notify"}      \* touch the swap mutex and the watcher
-Taker  == {"msg_opening", "msg_cancel", "notify_obs", "timeout", "rpc_resend", "rpc_swapout", "pol_set", "pol_reload", "pol_get"}
+Taker  == {"msg_opening", "msg_cancel", "notify_obs", "timeout", "rpc_resend", "rpc_swapout", "msg_req", "pol_set", "pol_reload", "pol_get"}
 Recov  == {"msg_cancel", "msg_coop", "pay_claim", "notify", "rpc_resend", "pol_reload"}
 
 \* chain situations at the moment the entry points run: d0 / mines
@@ -38,7 +38,8 @@ MakerCfgs ==
       w \in {"rpc", "el"}, prep \in {"ACP", "WCSV"}, ch \in Chains, a \in Maker, b \in Maker \cup {"-"}, flt \in {{}, {"wallet.coop"}}}
 MakerOK(c) ==
   /\ (c.faults # {} => "msg_coop" \in {c.entry["A"], c.entry["B"]})
-  /\ (c.chain # "not" => c.entry["A"] \in Core /\ c.entry["B"] \in Core \cup {"-"})
+  /\ (c.chain # "not" => \/ c.entry["A"] \in Core /\ c.entry["B"] \in Core \cup {"-"}
+                         \/ c.chain = "long" /\ c.entry["A"] \in Core /\ c.entry["B"] \in {"rpc_swapout", "msg_req"})
 TripleCfgs ==
   {c \in {Cfg(w, "in_sender", "ACP", ch, FALSE, {}, a, b, "notify") :
       w \in {"rpc", "el"}, ch \in {x \in Chains : x.n \in {"just", "long"}}, a \in {"msg_cancel", "msg_coop_bad"}, b \in {"pay_claim", "msg_coop", "msg_cancel"}} : TRUE}
@@ -48,16 +49,35 @@ TakerCfgs ==
 RecovCfgs ==
   {Cfg(w, "in_sender", prep, ch, TRUE, {}, "recover", b, "-") :
       w \in {"rpc", "el"}, prep \in {"ACP", "WCSV"}, ch \in {x \in Chains : x.n \in {"not", "long"}}, b \in Recov \cup {"-"}}
+  \cup {Cfg(w, "in_receiver", "ATC", [n |-> "not", d0 |-> 0, mines |-> 1], TRUE, {}, "recover", b, "-") :
+      w \in {"rpc", "el"}, b \in {"-", "notify_obs", "msg_cancel", "rpc_resend"}}
 
 \* A <= B in a fixed order removes the mirrored configurations
-Ord == <<"-", "msg_cancel", "msg_coop", "msg_coop_bad", "msg_opening", "pay_claim", "timeout", "notify", "notify_obs", "rpc_resend", "rpc_swapout", "pol_set", "pol_reload", "pol_get", "recover">>
+Ord == <<"-", "msg_cancel", "msg_coop", "msg_coop_bad", "msg_opening", "pay_claim", "timeout", "notify", "notify_obs", "rpc_resend", "rpc_swapout", "msg_req", "pol_set", "pol_reload", "pol_get", "recover">>
 Idx(e) == CHOOSE i \in 1..Len(Ord) : Ord[i] = e
 Once == {"timeout", "pay_claim"}     \* one timer / one payment notification per swap
 Canon(c) == /\ (c.entry["B"] = "-" \/ c.entry["A"] = "recover" \/ Idx(c.entry["A"]) <= Idx(c.entry["B"]))
             /\ ~(c.entry["A"] = c.entry["B"] /\ c.entry["A"] \in Once)
 
 AllCfgs == {c \in MakerCfgs : MakerOK(c) /\ Canon(c)} \cup TripleCfgs \cup {c \in TakerCfgs : Canon(c)} \cup RecovCfgs
-QuickCfgs == {c \in AllCfgs : c.entry["C"] = "-" /\ (c.chain = "not" => c.prep \in {"ACP", "ATC", "ATB"})}
+(* quick tier: the entry points that touch the swap mutex and a watcher in all chain situations; the service-level entry  *)
+(* points (RPC, policy, timeout) pairwise once and against each core entry point; the taker's confirmation path; recovery *)
+NonCore == {"timeout", "rpc_resend", "rpc_swapout", "msg_req", "pol_set", "pol_reload", "pol_get"}
+TCore   == {"msg_opening", "msg_cancel", "notify_obs", "timeout"}
+E2(c)   == {c.entry["A"], c.entry["B"]} \ {"-"}
+QuickOK(c) ==
+  /\ c.entry["C"] = "-"
+  /\ \/ /\ c.prep \in {"ACP", "WCSV"} /\ ~c.restart
+        /\ \/ E2(c) \subseteq Core /\ (c.prep = "ACP" \/ c.chain \in {"just", "long"})
+           \/ E2(c) \subseteq NonCore /\ c.watcher = "rpc" /\ c.prep = "ACP" /\ c.chain = "not"
+           \/ E2(c) \cap Core # {} /\ E2(c) \cap NonCore # {} /\ c.prep = "ACP" /\ c.chain = "not"
+           \* entry points that take the service lock for writing, against the synchronous-callback path
+           \/ E2(c) \cap Core # {} /\ E2(c) \cap {"rpc_swapout", "msg_req"} # {} /\ c.prep = "ACP" /\ c.chain = "long"
+     \/ /\ c.prep \in {"ATB", "ATC"}
+        /\ \/ E2(c) \subseteq TCore
+           \/ E2(c) \cap TCore # {} /\ c.role = "in_receiver" /\ c.prep = "ATC" /\ E2(c) \subseteq TCore \cup {"rpc_resend", "rpc_swapout", "pol_reload"}
+     \/ c.restart /\ c.entry["B"] \in {"-", "msg_cancel", "notify", "pay_claim", "notify_obs", "rpc_resend"}
+QuickCfgs == {c \in AllCfgs : QuickOK(c)}
 ChainIdx(c) == CASE c.chain = "not" -> 0 [] c.chain = "edge" -> 1 [] c.chain = "just" -> 2 [] OTHER -> 3
 PartOf(c) == (Idx(c.entry["A"]) + 5 * Idx(c.entry["B"]) + 3 * ChainIdx(c) + (IF c.watcher = "rpc" THEN 0 ELSE 7) + (IF c.prep \in {"ACP", "ATC"} THEN 0 ELSE 11)) % Parts
 Cfgs == {c \in (IF Tier = "quick" THEN QuickCfgs ELSE AllCfgs) : PartOf(c) = Part}
@@ -76,7 +96,7 @@ FineNext ==
 
 \* ---- gate granularity
 Steppable(st) == {p \in Procs : CanStart(st, p) \/ AtGate(st, p)}
-MacroSet(st, p) == SettleSet(IF CanStart(st, p) THEN Run(Start(st, p), p) ELSE Run(Exec(st, p), p))
+MacroSet(st, p) == SettleSet(IF CanStart(st, p) THEN RunL(Start(st, p), p) ELSE StepS(st, p))
 GateNext ==
   \/ \E p \in Steppable(s) : s' \in MacroSet(s, p) /\ hist' = Append(hist, p)
   \/ CanMine(s) /\ s' = Mine(s) /\ hist' = Append(hist, "E")
